@@ -1,0 +1,5 @@
+//go:build !verif
+
+package wire
+
+func verifPutStreamFrame(*StreamFrame) {}
